@@ -38,6 +38,8 @@ def Rv(x):
     return z3.RealVal(x)
 
 
+FMUL = z3.Function('fmul', z3.RealSort(), z3.RealSort(), z3.RealSort())
+
 # uninterpreted transcendental functions (axioms are added by specs that need them)
 UF = {}
 
